@@ -52,3 +52,4 @@ OBLIGATIONS += [
         desc="lzma_decoder_reset from an ARBITRARY previous decoder state (whole 28 KB struct havocked), lc/lp/pb = 0/0/0: all four rep distances zero, state initial, range decoder re-initialised, resume point cleared, and every probability (symbolic index into each table) back to the initial value - nothing of the previous chunk/stream survives a reset",
         bounds_q="lc/lp/pb = 0/0/0; all table entries (symbolic index)"),
 ]
+OBLIGATIONS += reuse("C13", r"file_info_")   # file-info decoder: seeks stay inside the file, no endless loop
